@@ -68,6 +68,35 @@ def scan_assumptions(text):
     return out
 
 
+def _impl_trait_method(fid):
+    """('Trait', 'method') for an id like `file.rs::impl < T : A + B > Trait < T > for Ty < T >::method`"""
+    i = fid.find("::impl")
+    if i < 0 or " for " not in fid[i:]:
+        return None
+    rest = fid[i + len("::impl"):].lstrip()
+    if rest.startswith("<"):
+        depth = 0
+        toks = rest.split(" ")
+        k = 0
+        for k, t in enumerate(toks):
+            if t == "<":
+                depth += 1
+            elif t == ">":
+                depth -= 1
+                if depth == 0:
+                    break
+            elif t == ">>":
+                depth -= 2
+                if depth <= 0:
+                    break
+        rest = " ".join(toks[k + 1:]).lstrip()
+    mt = re.match(r"([A-Za-z_][A-Za-z0-9_]*)", rest)
+    mm = re.search(r"::([A-Za-z_][A-Za-z0-9_]*)(?:#[A-Za-z0-9_]+)?$", fid)
+    if not mt or not mm:
+        return None
+    return (mt.group(1), mm.group(1))
+
+
 class UnitResult:
     def __init__(self, unit):
         self.unit = unit
@@ -188,10 +217,10 @@ def run_unit(unit, rlimit=40, extra_args=(), text_override=None, tag=None):
                 key = (fid, "pre:%s:%s" % (plab, callee))
                 obl[key] = dict(fn=fid, label=key[1], props=f["serves"], kind="call_precondition", ok=True, msg=None)
         # trait labels
-        m = re.search(r"::impl(?: <[^:]*>)? ([A-Za-z_]+)(?: <.*>)? for .*::([A-Za-z_]+)$", fid)
+        m = _impl_trait_method(fid)
         if m:
             for ln, (tr, meth, lab) in trait_labels.items():
-                if tr == m.group(1) and meth == m.group(2):
+                if tr == m[0] and meth == m[1]:
                     obl[(fid, lab)] = dict(fn=fid, label=lab, props=f["serves"], kind="trait_ensures", ok=True, msg=None)
 
     fatal = []
